@@ -247,7 +247,7 @@ def work_(t):
               extra=dict(eval_s=round(time.time() - t0_, 2)))
 
 
-def concrete(rp, seeds=(0, 1, 2)):
+def concrete(rp, seeds=(0, 1, 2, 3, 4, 5)):
   """numeric replay on the real functions (float32)"""
   from precondition import distributed_shampoo as ds
   d, r = rp['d'], rp['r']
@@ -308,8 +308,19 @@ def concrete(rp, seeds=(0, 1, 2)):
         G = rng.randn(k, k + 2)
         S = G @ G.T * np.diag(np.arange(1, k + 1.0))
         S = (S + S.T) / 2 + np.diag(np.arange(k) * 3.0)
+        if seed >= 3:
+          S = S * 0.01      # spectrum around and below 1: an unmasked identity padding block would then sit inside it
         A = np.zeros((d, d))
         A[:k, :k] = S
+        # the padding region is whatever the caller put there: zeros (seed 0), the identity block of pad_square_matrix
+        # (seed 1, what the optimizer passes) or arbitrary symmetric values (seed 2); the routine must mask it
+        if seed % 3 == 1:
+          A[k:, k:] = np.eye(d - k)
+        elif seed % 3 == 2:
+          Z = rng.randn(d, d)
+          Z = (Z + Z.T) / 2
+          Z[:k, :k] = 0
+          A = A + Z
         eps = 2.0 ** -10
         val, _ = ds._low_rank_root(jnp.asarray(A, jnp.float32), p, r, ridge_epsilon=eps, relative_matrix_epsilon=False, padding_start=k)
         V, inv, c, hz = ds._low_rank_unpack(val, r)
